@@ -1464,6 +1464,12 @@ func (c *CAManager) AuthorizeAndSignCertificate(csr *x509.CertificateRequest, au
 	if len(csr.EmailAddresses) > 0 {
 		return nil, connect.InvalidCSRError("CSR SAN does not allow specifying email addresses")
 	}
+	// A SPIFFE ID is a trust domain and a path, nothing else. ParseCertURI does not
+	// look at userinfo, query or fragment, and the URI is copied into the certificate
+	// as it is, so refuse them here.
+	if u := csr.URIs[0]; u.User != nil || u.RawQuery != "" || u.ForceQuery || u.Fragment != "" || u.RawFragment != "" {
+		return nil, connect.InvalidCSRError("SPIFFE ID in CSR must not have userinfo, a query or a fragment: %s", u.String())
+	}
 	// Parse the SPIFFE ID from the CSR SAN.
 	spiffeID, err := connect.ParseCertURI(csr.URIs[0])
 	if err != nil {
